@@ -189,3 +189,62 @@ def gen_netlist(rng, profile='s', size=None, extras=True, allow=None):
                 pass
     tags.add(profile)
     return {'lines': lines, 'tags': sorted(tags)}
+
+
+def targeted(rng, owner):
+    """small circuits that exercise one stamp-defining class in many grounding /
+    orientation patterns (used by the failing-input search when the Coq lemma
+    about that class no longer checks)"""
+    out = []
+    four = {'VCVS': 'E', 'VCCS': 'G', 'TF': 'TF', 'GY': 'GY'}
+    if owner in four or owner in ('TPA', 'TPB', 'TPG', 'TPH', 'TPY', 'TPZ', 'TL'):
+        pats = [('o', '0', 'b', '0'), ('o', 'p', 'b', 'c'), ('0', 'o', 'b', 'c'), ('o', 'p', '0', 'c'), ('o', 'p', 'c', 'b'), ('o', '0', 'b', 'c'),
+                ('o', 'b', 'b', 'c'), ('o', 'p', 'c', '0')]
+        for (a1, a2, c1, c2) in pats:
+            base = ['V1 a 0 step 2', 'R1 a b 1', 'R2 b 0 2', 'R3 b c 3', 'R4 c 0 5', 'R5 o 0 2', 'R6 p 0 3', 'R7 o p 4', 'R8 o b 7']
+            v = fs(val(rng, 1, 4))
+            if owner in four:
+                cpt = '%s1 %s %s %s %s %s' % (four[owner], a1, a2, c1, c2, v)
+            elif owner in ('TPY', 'TPZ'):
+                k = 'Y' if owner == 'TPY' else 'Z'
+                cpt = 'TP1 %s %s %s %s %s %s %s %s %s' % (a1, a2, c1, c2, k, fs(val(rng)), fs(val(rng, 1, 3)), fs(val(rng, 1, 3)), fs(val(rng, 4, 9)))
+            elif owner == 'TL':
+                continue
+            else:
+                k = owner[2]
+                cpt = 'TP1 %s %s %s %s %s %s %s %s %s' % (a1, a2, c1, c2, k, fs(val(rng)), fs(val(rng, 1, 3)), fs(val(rng, 1, 3)), fs(val(rng, 4, 9)))
+            out.append(base + [cpt])
+    elif owner in ('RC', 'L', 'V', 'I', 'AM'):
+        for (n1, n2) in [('b', 'c'), ('c', 'b'), ('b', '0'), ('0', 'b'), ('b', 'b2')]:
+            base = ['V1 a 0 step 2', 'R1 a b 1', 'R2 c 0 2', 'R3 b c 3']
+            if (n1, n2) == ('b', 'b2'):
+                base.append('W b b2')
+            for cpt in {'RC': ['R9 %s %s 2', 'C9 %s %s 3 4', 'C9 %s %s 2'], 'L': ['L9 %s %s 2 3', 'L9 %s %s 2'],
+                        'V': ['V9 %s %s step 3'], 'I': ['I9 %s %s step 3'], 'AM': ['AM9 %s %s']}[owner]:
+                if owner in ('V', 'AM') and 'b2' in (n1, n2):
+                    continue
+                out.append(base + [cpt % (n1, n2)])
+    elif owner in ('CCVS', 'CCCS'):
+        k = 'H' if owner == 'CCVS' else 'F'
+        for (n1, n2) in [('o', '0'), ('0', 'o'), ('o', 'p'), ('o', 'b')]:
+            for order in (0, 1):
+                base = ['V1 a 0 step 2', 'R1 a b 1', 'R2 b 0 2', 'R5 o 0 2', 'R6 p 0 3', 'R7 o p 4']
+                cpt = '%s1 %s %s V1 %s' % (k, n1, n2, fs(val(rng, 1, 4)))
+                out.append(([cpt] + base) if order else (base + [cpt]))
+    elif owner == 'K':
+        out.append(['V1 a 0 step 2', 'R1 a b 1', 'L1 b 0 2', 'L2 c 0 2', 'R2 c 0 3', 'K1 L1 L2 {1/2}'])
+        out.append(['V1 a 0 step 2', 'R1 a b 1', 'L1 b c 3', 'L2 0 d 3', 'R2 c 0 3', 'R3 d 0 1', 'K1 L2 L1 {1/4}'])
+    elif owner == 'TR':
+        for (n1, n2) in [('b', 'o'), ('b', 'c')]:
+            out.append(['V1 a 0 step 2', 'R1 a b 1', 'R2 b 0 2', 'R3 c 0 2', 'R5 o 0 2', 'TR1 %s %s 3' % (n1, n2)])
+    elif owner == 'RV':
+        out.append(['V1 a 0 step 2', 'RV1 a 0 w 4 {1/4}', 'R1 w 0 3'])
+        out.append(['V1 a 0 step 2', 'R0 a b 1', 'RV1 b c w 4 {1/3}', 'R1 w 0 3', 'R2 c 0 2'])
+    elif owner.startswith('SP'):
+        sig = owner[2:]
+        ins = ['b', 'c', 'd'][:len(sig) - 0 if len(sig) == 3 else 2]
+        if len(sig) == 2:
+            out.append(['V1 a 0 step 2', 'R1 a b 1', 'R2 b 0 2', 'R3 b c 1', 'R4 c 0 1', 'SP1 %s b c o' % sig, 'R5 o 0 2'])
+        else:
+            out.append(['V1 a 0 step 2', 'R1 a b 1', 'R2 b 0 2', 'R3 b c 1', 'R4 c 0 1', 'R6 c d 2', 'R7 d 0 2', 'SP1 %s b c o d' % sig, 'R5 o 0 2'])
+    return out
